@@ -899,7 +899,7 @@ class Interp:
             # the value is needed exactly: refine the state until the min/max is determined
             raise NeedSplit(v.args[0] - v.args[1], "%r is used in a computation/comparison" % (v,))
         if isinstance(v, bool):
-            raise Undecided("boolean used as number")
+            return Lin.num(1 if v else 0)  # True == 1, False == 0
         if isinstance(v, (int, float, Fraction)):
             return Lin.num(Fraction(v).limit_denominator(10 ** 12) if isinstance(v, float) else v)
         if v is None or isinstance(v, (str, Str, Lst, Tup, DictVal, SetVal)):
@@ -958,11 +958,23 @@ class Interp:
     def _identical(self, a, b):
         if a is None or b is None or isinstance(a, bool) or isinstance(b, bool):
             return a is b
+        if isinstance(a, ClassVal) and isinstance(b, ClassVal):
+            return a.cls is b.cls  # a class is one object however often it is looked up
+        if isinstance(a, Builtin) and isinstance(b, Builtin) and a.recv is None and b.recv is None:
+            return a.name == b.name
         return a is b
 
     def equal(self, a, b, node=None) -> bool:
-        if isinstance(a, bool) or isinstance(b, bool) or a is None or b is None:
-            return a is b if (a is None or b is None) else a == b
+        if a is None or b is None:
+            return a is b
+        if isinstance(a, bool) and isinstance(b, bool):
+            return a == b
+        if isinstance(a, bool) or isinstance(b, bool):
+            o = b if isinstance(a, bool) else a
+            if isinstance(o, (Lin, int, float, Fraction)):
+                a, b = self.num(a), self.num(b)  # True == 1, False == 0
+            else:
+                return False
         if isinstance(a, MinMax) or isinstance(b, MinMax):
             self.num(a if isinstance(a, MinMax) else b)
         if isinstance(a, (Lin, int, float, Fraction)) and isinstance(b, (Lin, int, float, Fraction)):
@@ -1105,7 +1117,11 @@ class Interp:
             for p in params + fn.kwonly:
                 if p not in env:
                     if p in fn.defaults:
-                        env[p] = self.eval(fn.defaults[p], {"__fn__": fn})
+                        # a default is evaluated once, when the function is defined: a mutable default is shared
+                        dc = self.__dict__.setdefault("_default_values", {})
+                        if (fn.qual, p) not in dc:
+                            dc[(fn.qual, p)] = self.eval(fn.defaults[p], {"__fn__": fn})
+                        env[p] = dc[(fn.qual, p)]
                     else:
                         raise PyRaise("TypeError")
             self.trace_calls.append(fn.short)
@@ -1160,13 +1176,18 @@ class Interp:
                 dv.d = extra_kw
                 env[a.kwarg.arg] = dv
             defaults = a.defaults
+            dvals = f.__dict__.setdefault("default_values", {})  # evaluated once per function object (at first use)
             for p, d in zip(params[len(params) - len(defaults):], defaults):
                 if p not in bound:
-                    env[p] = self.eval(d, f.env)
+                    if p not in dvals:
+                        dvals[p] = self.eval(d, f.env)
+                    env[p] = dvals[p]
                     bound.add(p)
             for p, d in zip(kwonly, a.kw_defaults):
                 if p not in bound and d is not None:
-                    env[p] = self.eval(d, f.env)
+                    if p not in dvals:
+                        dvals[p] = self.eval(d, f.env)
+                    env[p] = dvals[p]
                     bound.add(p)
             if any(p not in bound for p in params + kwonly):
                 raise PyRaise("TypeError")
@@ -1326,28 +1347,33 @@ class Interp:
                 raise PyRaise(v.name, s)
             raise Undecided("raise of %r" % (v,))
         if isinstance(s, ast.Try):
+            # the finally block runs on every Python-level exit of the statement: normal completion, an exception
+            # (handled or not), return, break, continue -- but not when the analysis itself gives up or asks for a split
             try:
-                self.exec_block(s.body, env)
-            except PyRaise as e:
-                for h in s.handlers:
-                    if self.handler_matches(h, e.name, env):
-                        if h.name:
-                            env[h.name] = ExcVal(e.name)
-                        old = env.get("__exc__")
-                        env["__exc__"] = e
-                        try:
-                            self.exec_block(h.body, env)
-                        finally:
-                            env["__exc__"] = old
-                            self.exec_block(s.finalbody, env) if s.finalbody else None
-                        return
+                try:
+                    self.exec_block(s.body, env)
+                except PyRaise as e:
+                    for h in s.handlers:
+                        if self.handler_matches(h, e.name, env):
+                            if h.name:
+                                env[h.name] = ExcVal(e.name)
+                            old = env.get("__exc__")
+                            env["__exc__"] = e
+                            try:
+                                self.exec_block(h.body, env)
+                            finally:
+                                env["__exc__"] = old
+                            break
+                    else:
+                        raise
+                else:
+                    self.exec_block(s.orelse, env)
+            except (PyRaise, _Return, _Break, _Continue):
                 if s.finalbody:
                     self.exec_block(s.finalbody, env)
                 raise
-            else:
-                self.exec_block(s.orelse, env)
-                if s.finalbody:
-                    self.exec_block(s.finalbody, env)
+            if s.finalbody:
+                self.exec_block(s.finalbody, env)
             return
         if isinstance(s, ast.With):
             for item in s.items:
@@ -1363,7 +1389,16 @@ class Interp:
         if isinstance(s, ast.Continue):
             raise _Continue()
         if isinstance(s, (ast.FunctionDef,)):
-            env[s.name] = FuncVal(node=s, env=env, name=s.name)
+            fv = FuncVal(node=s, env=env, name=s.name)
+            a_ = s.args
+            pos_ = [x.arg for x in list(getattr(a_, "posonlyargs", [])) + list(a_.args)]
+            fv.default_values = {}
+            for p_, d_ in zip(pos_[len(pos_) - len(a_.defaults):], a_.defaults):
+                fv.default_values[p_] = self.eval(d_, env)  # at definition time, as Python does
+            for p_, d_ in zip([x.arg for x in a_.kwonlyargs], a_.kw_defaults):
+                if d_ is not None:
+                    fv.default_values[p_] = self.eval(d_, env)
+            env[s.name] = fv
             return
         if isinstance(s, ast.Assert):
             if not self.truth(self.eval(s.test, env)):
@@ -1416,6 +1451,8 @@ class Interp:
             out.add(n)
             if errs and n in errs.classes:
                 todo.extend(b.split(".")[-1] for b in errs.classes[n].base_exprs)
+            elif n in self.idx.classes:  # an exception class defined in any other module of the package
+                todo.extend(b.split(".")[-1] for b in self.idx.classes[n].base_exprs)
             elif n in BUILTIN_EXC_PARENTS:
                 todo.append(BUILTIN_EXC_PARENTS[n])
             elif n != "BaseException":
@@ -1929,6 +1966,8 @@ class Interp:
             return self.num(v, e).neg()
         if isinstance(e.op, ast.UAdd):
             return self.num(v, e)
+        if isinstance(e.op, ast.Invert) and isinstance(v, Lin) and v.is_const() and v.const.denominator == 1 and not v.is_float:
+            return Lin.num(~int(v.const))
         raise Undecided("unary op")
 
     def e_Compare(self, e, env):
@@ -2038,19 +2077,30 @@ class Interp:
                 if sym is not None:
                     return sym
             return Str("opaque", ("fmt",))
+        if isinstance(op, (ast.BitXor, ast.LShift, ast.RShift)) and all(isinstance(v, Lin) and v.is_const() and v.const.denominator == 1 and not v.is_float for v in (a, b)):
+            x, y = int(a.const), int(b.const)
+            if isinstance(op, (ast.LShift, ast.RShift)) and (y < 0 or y > 4096):
+                raise PyRaise("ValueError", node)
+            return Lin.num(x ^ y if isinstance(op, ast.BitXor) else (x << y if isinstance(op, ast.LShift) else x >> y))
         if isinstance(op, (ast.Mod, ast.FloorDiv, ast.BitOr, ast.BitAnd)) and all(isinstance(v, Lin) and v.is_const() and v.const.denominator == 1 for v in (a, b)):
             x, y = int(a.const), int(b.const)
             if isinstance(op, (ast.Mod, ast.FloorDiv)) and y == 0:
                 raise PyRaise("ZeroDivisionError", node)
             return Lin.num({ast.Mod: lambda: x % y, ast.FloorDiv: lambda: x // y, ast.BitOr: lambda: x | y, ast.BitAnd: lambda: x & y}[type(op)]())
+        if isinstance(op, (ast.Mod, ast.FloorDiv)) and isinstance(a, Lin) and isinstance(b, Lin) and a.is_const() and b.is_const():
+            if b.const == 0:
+                raise PyRaise("ZeroDivisionError", node)
+            import math as _m
+            q_ = _m.floor(a.const / b.const)  # exact on the rationals
+            r_ = Lin.num(q_ if isinstance(op, ast.FloorDiv) else a.const - q_ * b.const)
+            return r_.as_float() if (a.is_float or b.is_float or a.const.denominator != 1 or b.const.denominator != 1) else r_
         if isinstance(op, ast.FloorDiv) and isinstance(a, Lin) and isinstance(b, Lin) and b.is_const() and b.const != 0:
             q = a.scale(1 / b.const)
             if all(v.denominator == 1 for v in list(q.coef.values()) + [q.const]):
                 return q  # exact: every coefficient is a multiple of the divisor (symbols stand for whole numbers here)
             raise Undecided("floor division of %r by %r" % (a, b))
-        if isinstance(op, (ast.BitAnd, ast.BitOr)):
-            x, y = self.truth(a), self.truth(b)
-            return (x and y) if isinstance(op, ast.BitAnd) else (x or y)
+        if isinstance(op, (ast.BitAnd, ast.BitOr)) and isinstance(a, bool) and isinstance(b, bool):
+            return (a and b) if isinstance(op, ast.BitAnd) else (a or b)
         raise Undecided("binary op %s" % type(op).__name__)
 
     def _symbolic_percent(self, fmt: str, vals):
@@ -2286,7 +2336,13 @@ class Interp:
                 raise PyRaise("StopIteration", node)
         if n == "sum":
             items = self.iterate(args[0])
-            tot = self.num(args[1]) if len(args) > 1 else Lin.num(0)
+            start_ = args[1] if len(args) > 1 else kwargs.get("start")
+            if isinstance(start_, (Lst, Tup)):
+                tot = start_
+                for x in items:
+                    tot = self.binop(ast.Add(), tot, x, node)  # sum(lists, []) concatenates
+                return tot
+            tot = self.num(start_) if start_ is not None else Lin.num(0)
             for x in items:
                 tot = tot + self.num(x)
             return tot
@@ -2301,6 +2357,8 @@ class Interp:
                 return repr(v)
             if isinstance(v, Lin):
                 return Str("num", (v,))  # repr/str of a float is a numeral denoting exactly that float (CPython guarantee)
+            if v is None or isinstance(v, bool):
+                return str(v)
             return v if isinstance(v, (str, Str)) else _StrOf(v)
         if n == "type":
             v = args[0]
@@ -2363,8 +2421,27 @@ class Interp:
                             "readlines": PyFunc(lambda I_, path=path: Lst(vfs[path].splitlines(True)))}, "file:" + path)
         if n in ("math.isclose",):
             return self.equal(args[0], args[1], node)
-        if n in ("copy.deepcopy", "copy.copy"):
+        if n == "copy.deepcopy":
             return self.deepcopy(args[0])
+        if n == "copy.copy":
+            v = args[0]  # shallow: a new container holding the same elements
+            if isinstance(v, Lst):
+                return Lst(list(v.items))
+            if isinstance(v, Tup):
+                return v
+            if isinstance(v, SetVal):
+                return SetVal(list(v.items))
+            if isinstance(v, DictVal):
+                d2 = DictVal()
+                d2.d = dict(v.d)
+                return d2
+            if isinstance(v, ObjVal):
+                o2 = ObjVal(v.cls)
+                o2.attrs = dict(v.attrs)
+                return o2
+            if isinstance(v, (Lin, str, Str, bool)) or v is None:
+                return v
+            raise Undecided("copy.copy of %r" % (v,))
         if n in ("OrderedDict", "collections.OrderedDict", "dict"):
             d = DictVal()
             if args:
@@ -2400,7 +2477,8 @@ class Interp:
         if n == "itertools.zip_longest":
             its = [self.iterate(a) for a in args]
             m = max(len(i) for i in its) if its else 0
-            return Lst([Tup([i[k] if k < len(i) else None for i in its]) for k in range(m)])
+            fill = kwargs.get("fillvalue")
+            return Lst([Tup([i[k] if k < len(i) else fill for i in its]) for k in range(m)])
         if n in ("re.findall", "re.search", "re.match", "re.fullmatch", "re.sub", "re.split", "re.finditer") and all(isinstance(a, str) for a in args[:2]) and not any(isinstance(a, Builtin) for a in args[2:]):
             return self._regex(n[3:], args, kwargs, node)
         if n in ("re.findall", "re.search", "re.sub", "re.split"):
@@ -2423,6 +2501,10 @@ class Interp:
             v = args[0]
             if isinstance(v, Lin) and v.is_const() and len(args) == 1:
                 return Lin.num(round(v.const))  # exact banker's rounding on the rational value
+            if isinstance(v, Lin) and v.is_const() and len(args) == 2 and isinstance(args[1], Lin) and args[1].is_const():
+                x_ = float(v.const) if (v.is_float or v.const.denominator != 1) else int(v.const)
+                r_ = round(x_, int(args[1].const))  # Python's own correctly rounded decimal rounding of that double
+                return Lin.num(Fraction(r_)).as_float() if isinstance(r_, float) else Lin.num(r_)
             raise Undecided("round() of a symbolic number")
         raise Undecided("builtin %s" % n)
 
@@ -2810,22 +2892,54 @@ class Interp:
 
     def _isinstance(self, v, c) -> bool:
         classes = c.items if isinstance(c, Tup) else [c]
+        names = {k.name for k in classes if isinstance(k, Builtin)}
+        unknown = None
         for k in classes:
             if isinstance(k, ClassVal):
                 if isinstance(v, ObjVal) and k.cls in v.cls.mro():
                     return True
                 if isinstance(v, Tup) and v.cls == k.cls.name:
                     return True
+                if isinstance(v, Tup) and v.cls and v.cls in self.idx.classes and k.cls in self.idx.classes[v.cls].mro():
+                    return True
             elif isinstance(k, Builtin):
-                if k.name == "tuple" and isinstance(v, Tup):
+                r = self._is_builtin_instance(v, k.name, names)
+                if r is True:
                     return True
-                if k.name == "list" and isinstance(v, Lst):
-                    return True
-                if k.name == "str" and isinstance(v, (str, Str)):
-                    return True
-                if k.name in ("float", "int") and isinstance(v, Lin):
-                    return True
+                if r is None:
+                    unknown = k.name
+            else:
+                unknown = repr(k)
+        if unknown is not None:
+            raise Undecided("isinstance(%r, %s)" % (v, unknown))
         return False
+
+    @staticmethod
+    def _is_builtin_instance(v, name, names):
+        """True / False / None (not known) for isinstance(v, <builtin type name>)"""
+        if name in ("object",):
+            return True
+        if name == "bool":
+            return isinstance(v, bool)
+        if name in ("int", "float"):
+            if isinstance(v, bool):
+                return name == "int"
+            if isinstance(v, Lin):
+                if {"int", "float"} <= names:
+                    return True
+                if v.is_const():
+                    is_int = v.const.denominator == 1 and not v.is_float
+                    return is_int if name == "int" else not is_int
+                return True if name == "float" and v.is_float else None  # a symbolic number: int or float is not known
+            return False if isinstance(v, (str, Str, Lst, Tup, DictVal, SetVal, ObjVal)) or v is None else None
+        kinds = {"tuple": Tup, "list": Lst, "str": (str, Str), "dict": DictVal, "OrderedDict": DictVal, "collections.OrderedDict": DictVal, "set": SetVal, "frozenset": SetVal}
+        if name in kinds:
+            if isinstance(v, kinds[name]):
+                return True
+            return False if isinstance(v, (bool, Lin, str, Str, Lst, Tup, DictVal, SetVal, ObjVal)) or v is None else None
+        if name in ("bytes", "bytearray"):
+            return False if isinstance(v, (bool, Lin, str, Str, Tup, DictVal, SetVal, ObjVal)) or v is None else None  # byte strings are modelled as lists / buffers
+        return None
 
     def _minmax(self, n, args, kwargs, node):
         key = kwargs.get("key")
@@ -2842,10 +2956,12 @@ class Interp:
             bk = self.call_value(key, [best], {})
             for x in items[1:]:
                 xk = self.call_value(key, [x], {})
-                s = self.sign(self.num(xk), self.num(bk), node)
-                if (n == "min" and s < 0) or (n == "max" and s > 0):
+                better = self._lt(xk, bk) if n == "min" else self._lt(bk, xk)
+                if better:
                     best, bk = x, xk
             return best
+        if all(isinstance(x, str) for x in items):
+            return min(items) if n == "min" else max(items)
         if all(isinstance(x, (Lin, int, float)) for x in items):
             lins = [self.num(x) for x in items]
             # drop dominated candidates; keep incomparable ones symbolically
@@ -2887,18 +3003,15 @@ class Interp:
 
     def _sort(self, items, key=None, reverse=None):
         out = []
-        for x in items:  # stable insertion sort
+        for x in items:  # stable insertion sort; with reverse, equal keys keep their original order too (as in Python)
             kx = self.call_value(key, [x], {}) if key is not None else x
             pos = len(out)
             for i, (ky, _) in enumerate(out):
-                if self._lt(kx, ky):
+                if (self._lt(ky, kx) if reverse is True else self._lt(kx, ky)):
                     pos = i
                     break
             out.insert(pos, (kx, x))
-        res = [x for _, x in out]
-        if reverse is True:
-            res.reverse()
-        return res
+        return [x for _, x in out]
 
     def _lt(self, a, b) -> bool:
         if isinstance(a, Tup) and isinstance(b, Tup):
@@ -3103,6 +3216,19 @@ class Interp:
         """str.format with plain fields ({} {0} {name}, optional !s/!r, no format spec) over concrete or symbolic values."""
         import string as _string
 
+        def conc(v):
+            if isinstance(v, Lin) and v.is_const():
+                return int(v.const) if v.const.denominator == 1 and not v.is_float else float(v.const)
+            if isinstance(v, (str, int, float)) or v is None:
+                return v
+            raise KeyError
+        try:
+            # everything concrete: Python's own formatting (format specs, conversions, attribute-free fields)
+            return fmt.format(*[conc(a) for a in args], **{k: conc(v) for k, v in kwargs.items()})
+        except KeyError:
+            pass
+        except (ValueError, IndexError, TypeError) as ex:
+            raise PyRaise(type(ex).__name__)
         out, auto = [], 0
         try:
             parsed = list(_string.Formatter().parse(fmt))
@@ -3137,6 +3263,8 @@ class Interp:
             elif isinstance(v, Lin):
                 out.append(str(int(v.const)) if v.is_const() and v.const.denominator == 1 and not getattr(v, "is_float", False) else Str("num", (v,)))
             elif isinstance(v, bool) or v is None:
+                out.append(str(v))
+            elif isinstance(v, (int, float)):
                 out.append(str(v))
             else:
                 out.append(_StrOf(v))
